@@ -7,7 +7,7 @@
 (* handlers, route handlers - in that order), position N is the action     *)
 (* (may be nil).  A handler is a PROGRAM: a sequence of operations         *)
 (*    "W" WriteHeader   "N" c.Next()   "C" cancel the request context      *)
-(*    "P" panic                                                            *)
+(*    "P" panic          "R" c.Map(custom ReturnHandler) on the request     *)
 (* (the response body is kept as the sequence of chunks written)           *)
 (* followed by a return value (a record, see Render).  kind = "rec" is     *)
 (* flamego.Recovery(), kind = "inj" a handler whose parameter cannot be    *)
@@ -28,7 +28,7 @@ CONSTANTS N,         \* handlers 0..N-1, action at N
 \* Dev (declared in ChainP): "D8" = cursor as in the code before the repair (Next() increments, run() increments after the call)
 
 (* ----------------------------- programs ------------------------------- *)
-OpsU == CASE Family = "rec" -> {"W", "N", "P"} [] Family = "ret" -> {"N"} [] OTHER -> {"W", "N", "C"}
+OpsU == CASE Family = "rec" -> {"W", "N", "P"} [] Family = "ret" -> {"N", "R"} [] OTHER -> {"W", "N", "C"}
 OpSeqs == UNION { [1..n -> OpsU] : n \in 0..MaxOps }
 RetU == CASE Family = "ret" ->
                { NoRet, Ret("string", "", 0, ""), Ret("string", "s", 0, ""), Ret("bytes", "", 0, ""), Ret("bytes", "b", 0, ""),
@@ -44,8 +44,9 @@ Nil == [ops |-> <<>>, ret |-> NoRet, kind |-> "nil"]
 Rec == [ops |-> <<"N">>, ret |-> NoRet, kind |-> "rec"]
 Inj == [ops |-> <<>>, ret |-> NoRet, kind |-> "inj"]
 
-VARIABLES progs, index, status, body, cancelled, stack, ev
-vars == <<progs, index, status, body, cancelled, stack, ev>>
+VARIABLES progs, index, status, body, cancelled, stack, ev,
+          rh        \* a custom ReturnHandler has been mapped into the request scope
+vars == <<progs, index, status, body, cancelled, stack, ev, rh>>
 
 RunF == [k |-> "run", h |-> 0, pc |-> 0]
 \* chains of the family: "rec" has exactly one Recovery among the handlers and may contain one "inj"
@@ -58,7 +59,7 @@ InitProgs ==
     [] OTHER -> { f \in [0..N -> Programs \cup {Nil}] : \A i \in 0..(N - 1) : f[i] # Nil }
 Init == /\ progs \in InitProgs
         /\ index = 0 /\ status = 0 /\ body = <<>> /\ cancelled = FALSE
-        /\ stack = <<RunF>> /\ ev = <<>>
+        /\ stack = <<RunF>> /\ ev = <<>> /\ rh = FALSE
 
 Top == stack[Len(stack)]
 Pop(s) == SubSeq(s, 1, Len(s) - 1)
@@ -81,19 +82,20 @@ Unwind(s, evs) ==
 Panic(s, evs) ==
   LET u == Unwind(s, evs) IN
   IF u.caught
-  THEN /\ stack' = [u.stack EXCEPT ![Len(u.stack)].pc = 2]
+  THEN /\ rh' = rh
+       /\ stack' = [u.stack EXCEPT ![Len(u.stack)].pc = 2]
        /\ ev' = Append(u.ev, E1("nextret", u.stack[Len(u.stack)].h))
        /\ status' = IF status = 0 THEN 500 ELSE status
        /\ body' = Append(body, "<REC>")
-  ELSE /\ stack' = u.stack /\ ev' = u.ev /\ UNCHANGED <<status, body>>
+  ELSE /\ stack' = u.stack /\ ev' = u.ev /\ UNCHANGED <<status, body, rh>>
 
 RunStep == /\ Len(stack) > 0 /\ Top.k = "run"
            /\ IF index > N \/ cancelled
               THEN /\ stack' = Pop(stack) /\ ev' = PopRunEv(Pop(stack), ev, status, body)
-                   /\ UNCHANGED <<progs, index, status, body, cancelled>>
+                   /\ UNCHANGED <<progs, index, status, body, cancelled, rh>>
               ELSE IF progs[index].kind = "nil"
                    THEN /\ stack' = Pop(stack) /\ ev' = PopRunEv(Pop(stack), ev, status, body)
-                        /\ index' = index + 1 /\ UNCHANGED <<progs, status, body, cancelled>>
+                        /\ index' = index + 1 /\ UNCHANGED <<progs, status, body, cancelled, rh>>
               ELSE IF progs[index].kind = "inj"
                    THEN /\ Panic(stack, Append(ev, E1("panic", index)))
                         /\ index' = IF Fixed THEN index + 1 ELSE index
@@ -101,26 +103,29 @@ RunStep == /\ Len(stack) > 0 /\ Top.k = "run"
                    ELSE /\ stack' = Append(stack, [k |-> "body", h |-> index, pc |-> 1])
                         /\ ev' = Append(ev, E1("enter", index))
                         /\ index' = IF Fixed THEN index + 1 ELSE index
-                        /\ UNCHANGED <<progs, status, body, cancelled>>
+                        /\ UNCHANGED <<progs, status, body, cancelled, rh>>
 
 BodyStep == /\ Len(stack) > 0 /\ Top.k = "body" /\ Top.pc <= Len(progs[Top.h].ops)
             /\ LET op == progs[Top.h].ops[Top.pc]
                    adv == [stack EXCEPT ![Len(stack)].pc = @ + 1]
                IN CASE op = "W" -> /\ status' = IF status = 0 THEN 200 + Top.h ELSE status
                                    /\ stack' = adv /\ ev' = Append(ev, [e |-> "write", h |-> Top.h, code |-> 200 + Top.h])
-                                   /\ UNCHANGED <<progs, index, body, cancelled>>
+                                   /\ UNCHANGED <<progs, index, body, cancelled, rh>>
+                    [] op = "R" -> /\ rh' = TRUE
+                                   /\ stack' = adv /\ ev' = Append(ev, E1("setrh", Top.h))
+                                   /\ UNCHANGED <<progs, index, status, body, cancelled>>
                     [] op = "C" -> /\ cancelled' = TRUE
                                    /\ stack' = adv /\ ev' = Append(ev, E1("cancel", Top.h))
-                                   /\ UNCHANGED <<progs, index, status, body>>
+                                   /\ UNCHANGED <<progs, index, status, body, rh>>
                     [] op = "N" -> /\ index' = IF Fixed THEN index ELSE index + 1
                                    /\ stack' = Append(adv, RunF)
                                    /\ ev' = Append(ev, E1("next", Top.h))
-                                   /\ UNCHANGED <<progs, status, body, cancelled>>
+                                   /\ UNCHANGED <<progs, status, body, cancelled, rh>>
                     [] op = "P" -> /\ Panic(stack, Append(ev, E1("panic", Top.h)))
                                    /\ UNCHANGED <<progs, index, cancelled>>
 
 BodyReturn == /\ Len(stack) > 0 /\ Top.k = "body" /\ Top.pc > Len(progs[Top.h].ops)
-              /\ LET rr == Render(progs[Top.h].ret)
+              /\ LET rr == RenderWith(rh, progs[Top.h].ret)
                      st1 == IF rr.wrote /\ status = 0 THEN rr.code ELSE status
                      bd1 == IF rr.wrote /\ rr.body # "" THEN Append(body, rr.body) ELSE body
                      s1 == Pop(stack)            \* the run frame that invoked us is now on top
@@ -131,7 +136,7 @@ BodyReturn == /\ Len(stack) > 0 /\ Top.k = "body" /\ Top.pc > Len(progs[Top.h].o
                        THEN /\ stack' = Pop(s1)         \* run() returns because something was written
                             /\ ev' = PopRunEv(Pop(s1), ev1, st1, bd1)
                        ELSE /\ stack' = s1 /\ ev' = ev1
-                    /\ UNCHANGED <<progs, cancelled>>
+                    /\ UNCHANGED <<progs, cancelled, rh>>
 
 Next == RunStep \/ BodyStep \/ BodyReturn
 Spec == Init /\ [][Next]_vars
